@@ -55,6 +55,9 @@ func (x *Exec) bytesToStr(s *State, v Value) *StrVal {
 		if c.Len.IsConst() && c.Len.K == 0 {
 			return x.str("")
 		}
+		if x.isLenOnlySlice(s, c) {
+			return &StrVal{Len: c.Len, LenOnly: true}
+		}
 		el, _ := x.sliceElems(s, c)
 		out := &StrVal{B: make([]*Term, len(el)), Len: c.Len}
 		for i, e := range el {
@@ -66,7 +69,30 @@ func (x *Exec) bytesToStr(s *State, v Value) *StrVal {
 	return nil
 }
 
+// isLenOnlySlice: the slice was created by zzvrf.LenOnly (empty backing array, symbolic length).
+func (x *Exec) isLenOnlySlice(s *State, c *SliceVal) bool {
+	if c.Len.IsConst() {
+		return false
+	}
+	seen := false
+	for _, a := range c.Ptr.Alts {
+		if a.Obj == 0 || a.G.IsFalse() {
+			continue
+		}
+		arr, ok := getPath(s.Heap[a.Obj], a.Path[:len(a.Path)-1]).(*ArrayVal)
+		if !ok || len(arr.E) != 0 {
+			return false
+		}
+		seen = true
+	}
+	return seen
+}
+
 func (x *Exec) strToBytes(s *State, sv *StrVal) *SliceVal {
+	if sv.LenOnly {
+		id := x.newObj(&ArrayVal{E: []Value{}}, s)
+		return &SliceVal{Ptr: x.ptrTo(id, 0), Len: sv.Len, Cap: sv.Len}
+	}
 	arr := &ArrayVal{E: make([]Value, len(sv.B))}
 	for i := range arr.E {
 		arr.E[i] = sv.B[i]
